@@ -206,4 +206,10 @@ if __name__ == "__main__":
         with open_utf8(args.source_map, "w") as f:
             f.write(compiler.source_map.serialize())
 
+    if sys.stdout is None:
+        # The process was started without a standard output (eg. ">&-"): print() would silently do nothing.
+        if sys.stderr is not None:
+            print("No standard output to write the result to.", file=sys.stderr)
+        exit(1)
+
     print(json.dumps(output_dict))
